@@ -59,3 +59,28 @@ def deviations(model, types, alts=None, per_class_first_only=True, magic=True):
                     toks[i] = sp
                     out.append((i, sp, ' '.join(toks)))
     return out
+
+
+# non-ASCII letters that re.IGNORECASE folds onto ASCII ones (the lexers match keywords case-insensitively):
+# U+017F LONG S ~ s, U+0131 DOTLESS I ~ i, U+212A KELVIN SIGN ~ k, U+0130 I WITH DOT ~ i
+FOLDS = {'s': ['\u017f'], 'i': ['\u0131', '\u0130'], 'k': ['\u212a']}
+
+
+def fold_variants(word):
+    """spellings of a keyword with one letter replaced by a non-ASCII letter that case-folds to it"""
+    out = []
+    for i, ch in enumerate(word):
+        for alt in FOLDS.get(ch.lower(), ()):
+            out.append(word[:i] + alt + word[i + 1:])
+    return out
+
+
+def keyword_like_ids(model):
+    """back-quoted names that begin or end with a keyword and continue with a character the ID pattern accepts but \\b does not treat
+    as part of a word ($), or with a digit / underscore"""
+    out = []
+    for w in keyword_ids(model):
+        if ' ' in w:
+            continue
+        out += ['`%s$x`' % w, '`%s$`' % w, '`$%s`' % w, '`%s$1`' % w, '`x$%s`' % w]
+    return out
